@@ -1,4 +1,6 @@
 import VhostModel.Lemmas.BackendSrv
+import VhostModel.Model.Frontend
+import VhostModel.Spec.Frontend
 /-!
 # C07 — feature-dependent operations are impossible before the feature is negotiated (backend side)
 
@@ -201,5 +203,39 @@ example : (dispatch {} ⟨24, 1, 12⟩ (leBytes 4 0 ++ leBytes 4 0 ++ leBytes 4 
   decide
 example : (dispatch { ackedProto := 0x200 } ⟨17, 1, 0⟩ [] none {}).res = .err .inactiveOperation := by decide
 example : (dispatch { ackedProto := 1 } ⟨17, 1, 0⟩ [] none { v := 7 }).calls = [⟨"get_queue_num", [], [], []⟩] := by decide
+
+
+/-! ## frontend endpoint -/
+section Frontend
+open Model.Frontend
+
+/-- a gated API call is refused locally (and by `Props.C02.reject_sends_nothing` touches neither wire nor state)
+unless its protocol feature is acknowledged — for every operation the protocol ties to a feature, all arguments -/
+theorem frontend_gate (s : FSt) (op : Op) (b : Nat) (hg : Spec.Frontend.gateBit op.name = some b)
+    (hb : bitSet s.ackedProto b = false) : ∃ e, request s op = .error e := by
+  obtain ⟨name, a, payload, fds, bad, regions⟩ := op
+  simp only [Spec.Frontend.gateBit] at hg
+  split at hg <;> simp at hg <;> subst hg <;> simp only [request, hasProto, hb] <;> (repeat' split) <;> simp_all
+
+/-- the protocol-feature exchange itself is refused until the backend has offered VHOST_USER_F_PROTOCOL_FEATURES -/
+theorem frontend_proto_exchange_needs_offer (s : FSt) (op : Op) (h : bitSet s.virtio 30 = false)
+    (hn : op.name = "get_protocol_features" ∨ op.name = "set_protocol_features") :
+    ∃ e, request s op = .error e := by
+  obtain ⟨name, a, payload, fds, bad, regions⟩ := op
+  simp only at hn
+  rcases hn with rfl | rfl <;> simp only [request, h] <;> (repeat' split) <;> simp_all
+
+/-- ring enable is refused until VHOST_USER_F_PROTOCOL_FEATURES is among the acknowledged virtio features -/
+theorem frontend_ring_enable_needs_protocol_features (s : FSt) (op : Op) (h : bitSet s.acked 30 = false)
+    (hn : op.name = "set_vring_enable") : ∃ e, request s op = .error e := by
+  obtain ⟨name, a, payload, fds, bad, regions⟩ := op
+  simp only at hn; subst hn
+  simp only [request, h] <;> (repeat' split) <;> simp_all
+
+/-- device-state transfer is gated by DEVICE_STATE (bit 19) -/
+theorem frontend_device_state_gate : Spec.Frontend.gateBit "set_device_state_fd" = some 19 ∧
+    Spec.Frontend.gateBit "check_device_state" = some 19 := ⟨rfl, rfl⟩
+
+end Frontend
 
 end Props.C07
